@@ -231,11 +231,15 @@ def chain_files(rng):
     pad = lambda: rng.choice(['', 'é text ', 'plain ', '<b>t</b>'])
     inner = ('<div>%s<p metal:define-macro="m">%s%s<b tal:content="f(1)">x</b> ${f(2)}%s<i metal:define-slot="s">d ${f(3)}</i></p>%s</div>'
              % (ws(), pad(), ws(), ws(), ws()))
-    mid = ('<div tal:define="inner load: inner.pt">%s<span metal:use-macro="inner.macros[\'m\']">%s<u metal:fill-slot="s">filled %s${f(4)}</u>%s</span>%s${f(5)}</div>'
-           % (ws(), ws(), pad(), ws(), ws()))
-    outer = ('<html tal:define="mid load: mid.pt">%s<body>%s<x metal:use-macro="mid" />%s${f(6)}%s</body></html>'
-             % (ws(), ws(), ws(), ws()))
-    return {'inner.pt': inner, 'mid.pt': mid, 'outer.pt': outer}
+    # the macro expression in several value-preserving spellings: the call-site record names the whole expression as written
+    macexpr = rng.choice(["inner.macros['m']", "inner.macros['m']", "python: inner.macros['m']", "nothing.x | python: inner.macros['m']",
+                          "nosuchname | inner.macros['m']", "(inner.macros['m'])", "inner.macros[g('m')]"])
+    mid = ('<div tal:define="inner load: inner.pt">%s<span metal:use-macro="%s">%s<u metal:fill-slot="s">filled %s${f(4)}</u>%s</span>%s${f(5)}</div>'
+           % (ws(), macexpr, ws(), pad(), ws(), ws()))
+    midexpr = rng.choice(['mid', 'mid', 'nothing.x | mid', 'python: mid'])
+    outer = ('<html tal:define="mid load: mid.pt">%s<body>%s<x metal:use-macro="%s" />%s${f(6)}%s</body></html>'
+             % (ws(), ws(), midexpr, ws(), ws()))
+    return {'inner.pt': inner, 'mid.pt': mid, 'outer.pt': outer, '__macexpr': macexpr, '__midexpr': midexpr}
 
 
 def layer_inplace_macro(ctx, n):
@@ -322,7 +326,11 @@ def layer_recursive_render(ctx, n):
     for i in range(n):
         depth = rng.randint(0, 5)
         lead = rng.choice(['', '\n', '<!-- c -->\n  '])
-        expr = 'template.render(node=node.child, f=f) if node.child else f(node)'
+        # the nested rendering is made directly, or through a helper that looks at the error on its way out
+        # (logs it, i.e. formats it) and lets it pass
+        via = rng.choice(['direct', 'direct', 'logged'])
+        expr = ('template.render(node=node.child, f=f, show=show) if node.child else f(node)' if via == 'direct' else
+                'show(template, node=node.child, f=f, show=show) if node.child else f(node)')
         src = lead + '<div>${node.name}' + rng.choice(['', '\n  ']) + '${structure: %s}</div>' % expr
         clsname = rng.choice(['KeyError', 'ValueError', 'TwoArgs', 'ZeroDivisionError', 'StrOverride'])
 
@@ -333,11 +341,19 @@ def layer_recursive_render(ctx, n):
             node = TreeNode('n%d' % k, node)
         rec = (expr, '<string>') + line_col(src, src.index(expr))
         want = [rec] * (depth + 1)
-        what = 'template %r rendering itself %d level(s) deep, %s raised at the innermost level (recursive)' % (src, depth, clsname)
+        what = 'template %r rendering itself %d level(s) deep, %s raised at the innermost level (recursive, %s)' % (src, depth, clsname, via)
         replay = {'kind': 'recursive', 'src': src, 'depth': depth, 'cls': clsname}
-        ctx.case(key=('recursive', depth, bool(lead), clsname), nontrivial=True)
+        ctx.case(key=('recursive', depth, bool(lead), clsname, via), nontrivial=True)
+        seen_on_the_way = []
+
+        def show(t, **kw):
+            try:
+                return t.render(**kw)
+            except Exception as exc:
+                seen_on_the_way.append(str(exc))        # what a logging helper does
+                raise
         try:
-            out = PageTemplate(src)(node=node, f=f)
+            out = PageTemplate(src)(node=node, f=f, show=show)
             ctx.violation('failure-swallowed', what + ': render returned %r' % out[:80], replay)
         except BaseException as e:   # noqa
             check_exception(ctx, e, clsname, want, what, replay)
@@ -350,6 +366,7 @@ def layer_file_chain(ctx, n):
     try:
         for i in range(n):
             files = chain_files(rng)
+            macexpr, midexpr = files.pop('__macexpr'), files.pop('__midexpr')
             for k, v in files.items():
                 with open(os.path.join(d, k), 'w', encoding='utf-8') as fh:
                     fh.write(v)
@@ -358,9 +375,9 @@ def layer_file_chain(ctx, n):
                 src = files[fn]
                 off = src.index(needle, start)
                 return (needle, os.path.join(d, fn)) + line_col(src, off)
-            use_mid = files['outer.pt'].index('use-macro="mid"') + len('use-macro="')
-            midloc = ('mid', os.path.join(d, 'outer.pt')) + line_col(files['outer.pt'], use_mid)
-            macloc = loc('mid.pt', "inner.macros['m']")
+            use_mid = files['outer.pt'].index('use-macro="%s"' % midexpr) + len('use-macro="')
+            midloc = (midexpr, os.path.join(d, 'outer.pt')) + line_col(files['outer.pt'], use_mid)
+            macloc = loc('mid.pt', macexpr)
             chains = {
                 1: ('macro-body', [loc('inner.pt', 'f(1)'), macloc, midloc]),
                 2: ('macro-body-interpolation', [loc('inner.pt', 'f(2)'), macloc, midloc]),
@@ -381,7 +398,7 @@ def layer_file_chain(ctx, n):
                 replay = {'kind': 'chain', 'files': files, 'fail': fail_id, 'cls': clsname}
                 ctx.case(key=('chain', position, clsname, want[0][2] > 1), nontrivial=True)
                 try:
-                    out = t(f=f)
+                    out = t(f=f, g=lambda x: x)
                     ctx.violation('failure-swallowed', what + ': render returned %r' % out[:80], replay)
                 except BaseException as e:   # noqa
                     ok = check_exception(ctx, e, clsname, want, what, replay)
